@@ -1694,3 +1694,231 @@ func RRewindFirst(c *core.Ctx) {
 		c.Anchor("top-level position saves that are rewound to, in parser methods")
 	}
 }
+
+// ---------------------------------------------------------------------------
+// R-RUNESTR: a rune does not survive a trip through a Go string.
+// string(r) encodes r as UTF-8; a surrogate or an out-of-range value becomes
+// U+FFFD.  Pattern characters are runes (\x{D800} is legal, rune-slice input
+// may contain it), so building a node's text as []rune(… string(ch) …) turns
+// `\x{D800}{2}` into the literal U+FFFD U+FFFD.
+// ---------------------------------------------------------------------------
+
+func RRuneStr(c *core.Ctx) {
+	c.Rule("R-RUNESTR", "in package syntax no []rune(…) conversion has an operand built from string(<rune>): a rune sequence is built from runes, never by way of a string (which replaces surrogates and invalid values by U+FFFD)", 0)
+	p := c.P
+	syn := p.Pkg("syntax")
+	info := syn.TypesInfo
+	n, examined := 0, 0
+	isRuneSlice := func(t types.Type) bool {
+		sl, ok := t.Underlying().(*types.Slice)
+		return ok && types.Identical(sl.Elem(), types.Typ[types.Rune])
+	}
+	for _, fd := range p.FuncDecls(syn) {
+		if fd.Body == nil || p.IsTestFile(fd.Pos()) {
+			continue
+		}
+		name := core.DeclName(syn, fd)
+		ast.Inspect(fd.Body, func(x ast.Node) bool {
+			call, ok := x.(*ast.CallExpr)
+			if !ok || len(call.Args) != 1 {
+				return true
+			}
+			tv, ok := info.Types[call.Fun]
+			if !ok || !tv.IsType() || !isRuneSlice(tv.Type) {
+				return true
+			}
+			examined++
+			var inner *ast.CallExpr
+			ast.Inspect(call.Args[0], func(y ast.Node) bool {
+				c2, ok := y.(*ast.CallExpr)
+				if !ok || len(c2.Args) != 1 {
+					return true
+				}
+				tv2, ok := info.Types[c2.Fun]
+				if !ok || !tv2.IsType() {
+					return true
+				}
+				if bt, ok := tv2.Type.Underlying().(*types.Basic); ok && bt.Info()&types.IsString != 0 {
+					if at, ok := info.TypeOf(c2.Args[0]).Underlying().(*types.Basic); ok && (at.Kind() == types.Int32 || at.Kind() == types.UntypedRune) {
+						inner = c2
+					}
+				}
+				return true
+			})
+			if inner != nil {
+				n++
+				c.Visit(name)
+				c.Bad(fmt.Sprintf("%s / rune sequence built by way of a string #%d", name, n), call.Pos(), "`%s`: `%s` is U+FFFD for a surrogate or an invalid rune, so the resulting runes are not the ones the pattern named", types.ExprString(call), types.ExprString(inner))
+			}
+			return true
+		})
+	}
+	c.Note("R-RUNESTR: %d []rune(...) conversions examined", examined)
+	if n == 0 {
+		c.OK("package syntax / no rune sequence is built by way of a string", token.NoPos, "%d []rune(…) conversions examined", examined)
+	}
+}
+
+// ---------------------------------------------------------------------------
+// R-BALTRANSP: a balancing group is not a transparent wrapper.
+// (?<-b>…) FAILS after its content has matched when group b has no capture
+// left; the engine then has to backtrack INTO the content (so that it pops
+// fewer b's).  eliminateEndingBacktracking may walk through a Capture as if it
+// were not there only for plain captures: the arm that lists NtCapture tests
+// the uncapture slot (N) against -1.
+// ---------------------------------------------------------------------------
+
+func RBalTransp(c *core.Ctx) {
+	c.Rule("R-BALTRANSP", "in eliminateEndingBacktracking every switch arm that lists NtCapture and goes on into the node's children compares the node's uncapture slot N with -1: ending backtracking is removed from the content of a plain capture only, never from a balancing group (whose Capturemark can fail after the content matched)", 1)
+	p := c.P
+	syn := p.Pkg("syntax")
+	info := syn.TypesInfo
+	fd, _ := p.DeclOf(p.LookupFunc("syntax", "RegexNode.eliminateEndingBacktracking"))
+	nField := p.LookupField("syntax", "RegexNode", "N")
+	if fd == nil || nField == nil {
+		c.Anchor("syntax.RegexNode.eliminateEndingBacktracking / RegexNode.N")
+		return
+	}
+	c.Visit("syntax.(*RegexNode).eliminateEndingBacktracking")
+	n := 0
+	ast.Inspect(fd.Body, func(x ast.Node) bool {
+		cc, ok := x.(*ast.CaseClause)
+		if !ok {
+			return true
+		}
+		lists := false
+		for _, e := range cc.List {
+			if id, ok := ast.Unparen(e).(*ast.Ident); ok {
+				if k, ok := info.ObjectOf(id).(*types.Const); ok && core.BaseName(k) == "NtCapture" {
+					lists = true
+				}
+			}
+		}
+		if !lists {
+			return true
+		}
+		n++
+		tests := false
+		for _, st := range cc.Body {
+			ast.Inspect(st, func(y ast.Node) bool {
+				be, ok := y.(*ast.BinaryExpr)
+				if !ok || (be.Op != token.EQL && be.Op != token.NEQ) {
+					return true
+				}
+				for _, pr := range [][2]ast.Expr{{be.X, be.Y}, {be.Y, be.X}} {
+					if core.FieldOf(info, pr[0]) == nField {
+						if k, ok := core.ConstInt(info, pr[1]); ok && k == -1 {
+							tests = true
+						}
+					}
+				}
+				return true
+			})
+		}
+		c.Check(tests, fmt.Sprintf("eliminateEndingBacktracking / the arm #%d that walks through NtCapture excludes balancing groups", n), cc.Pos(), "the arm treats every Capture as a transparent wrapper: for a balancing group (?<-b>…) the last alternation / loop of its content is wrapped in an Atomic node, although the group itself can still fail and needs that backtracking")
+		return true
+	})
+	if n == 0 {
+		c.Anchor("an arm of eliminateEndingBacktracking that lists NtCapture")
+	}
+}
+
+// ---------------------------------------------------------------------------
+// R-ENDDIR: "nothing can follow the end of the text" is a left-to-right
+// notion.  A loop is made atomic in front of \z / \Z / $ because it moves
+// TOWARDS the end and the anchor holds only once it has taken everything.  A
+// right-to-left loop (a lookbehind body, RightToLeft) moves AWAY from the end:
+// there the anchor holds only if the loop gives everything back.  Every
+// alternative of canBeMadeAtomic that accepts an end anchor therefore tests
+// the direction (or stands under such a test).
+// ---------------------------------------------------------------------------
+
+func REndDir(c *core.Ctx) {
+	c.Rule("R-ENDDIR", "in canBeMadeAtomic (and the predicates it hands its tests to) every alternative that accepts NtEnd, NtEndZ or NtEol as successor of a loop tests the direction in the same conjunction, or stands under a dominating direction test: for a right-to-left loop the end of the text is where it starts from, not where it is going", 3)
+	p := c.P
+	syn := p.Pkg("syntax")
+	info := syn.TypesInfo
+	fd, _ := p.DeclOf(p.LookupFunc("syntax", "RegexNode.canBeMadeAtomic"))
+	tField := p.LookupField("syntax", "RegexNode", "T")
+	rtlConst := p.LookupObj("syntax", "RightToLeft")
+	if fd == nil || tField == nil || rtlConst == nil {
+		c.Anchor("syntax.RegexNode.canBeMadeAtomic / RegexNode.T / RightToLeft")
+		return
+	}
+	c.Visit("syntax.(*RegexNode).canBeMadeAtomic")
+	units := []*ast.FuncDecl{fd}
+	ast.Inspect(fd.Body, func(x ast.Node) bool {
+		if call, ok := x.(*ast.CallExpr); ok {
+			if fn := core.Callee(info, call); fn != nil && fn.Pkg() == syn.Types && strings.Contains(strings.ToLower(core.BaseName(fn)), "overlap") {
+				if d, _ := p.DeclOf(fn); d != nil && d.Body != nil {
+					dup := false
+					for _, u := range units {
+						if u == d {
+							dup = true
+						}
+					}
+					if !dup {
+						units = append(units, d)
+					}
+				}
+			}
+		}
+		return true
+	})
+	n := 0
+	endKind := func(e ast.Expr) string {
+		found := ""
+		ast.Inspect(e, func(y ast.Node) bool {
+			be, ok := y.(*ast.BinaryExpr)
+			if !ok || be.Op != token.EQL || core.FieldOf(info, be.X) != tField {
+				return true
+			}
+			if id, ok := ast.Unparen(be.Y).(*ast.Ident); ok {
+				if k, ok := info.ObjectOf(id).(*types.Const); ok {
+					switch core.BaseName(k) {
+					case "NtEnd", "NtEndZ", "NtEol":
+						found = core.BaseName(k)
+					}
+				}
+			}
+			return true
+		})
+		return found
+	}
+	for _, u := range units {
+		dv := directionVars(info, u, rtlConst)
+		g := core.NewGraph(info, u.Body)
+		var visit func(e ast.Expr, at ast.Node)
+		visit = func(e ast.Expr, at ast.Node) {
+			e = ast.Unparen(e)
+			if be, ok := e.(*ast.BinaryExpr); ok && be.Op == token.LOR {
+				visit(be.X, at)
+				visit(be.Y, at)
+				return
+			}
+			kind := endKind(e)
+			if kind == "" {
+				return
+			}
+			n++
+			okDir := mentionsRTL(info, e, rtlConst, dv) || guardedByDirection(info, g, at, rtlConst, dv)
+			c.Check(okDir, fmt.Sprintf("canBeMadeAtomic / alternative #%d accepting %s is for left-to-right loops", n, kind), e.Pos(), "`%s` lets a right-to-left loop (lookbehind body) become atomic in front of %s: such a loop moves away from the end of the text, and the anchor can hold only if the loop gives its characters back (`(?<=(?:a*\\z){2})` on \"aa\")", types.ExprString(e), kind)
+		}
+		ast.Inspect(u.Body, func(x ast.Node) bool {
+			switch y := x.(type) {
+			case *ast.IfStmt:
+				visit(y.Cond, y)
+			case *ast.ReturnStmt:
+				for _, r := range y.Results {
+					if isBoolExpr(info, r) {
+						visit(r, y)
+					}
+				}
+			}
+			return true
+		})
+	}
+	if n == 0 {
+		c.Anchor("alternatives accepting an end anchor in canBeMadeAtomic")
+	}
+}
